@@ -11,11 +11,11 @@ from pedal.sandbox.result import unwrap_value
 from pedal.assertions import runtime as R
 from pedal.assertions.commands import unit_test
 
-from c07_values import VALUES, ERRORS
+from c07_values import VALUES, ERRORS, Point, Dog
 
 
 def student_code():
-    lines = []
+    lines = ['from c07_values import Point, Dog\n']
     for i, v in enumerate(VALUES):
         rep = 'float("nan")' if isinstance(v, float) and v != v else repr(v)
         lines.append('def give_%d():\n    return %s\n' % (i, rep))
@@ -33,6 +33,8 @@ BIN = ['assert_equal', 'assert_not_equal', 'assert_less', 'assert_less_equal', '
        'assert_not_contains_subset', 'assert_regex', 'assert_not_regex']
 UN = ['assert_true', 'assert_false', 'assert_is_none', 'assert_is_not_none']
 INST = ['assert_is_instance', 'assert_not_is_instance']
+TYPES = {'int': int, 'float': float, 'bool': bool, 'str': str, 'list': list, 'tuple': tuple, 'dict': dict, 'set': set, 'None': None,
+         'list[int]': list[int], 'list[str]': list[str], 'set[int]': set[int], 'dict[str,int]': dict[str, int], 'tuple[int,str]': tuple[int, str], 'Dog': Dog, 'Point': Point, 'bytes': bytes}
 CLASSES = {'int': int, 'float': float, 'str': str, 'list': list, 'bool': bool, 'dict': dict, 'tuple': tuple}
 
 
@@ -74,6 +76,8 @@ def main():
             args = [get(i, wl)]
         elif name in INST:
             args = [get(i, wl), CLASSES[case['cls']]]
+        elif name in ('assert_type', 'assert_not_type'):
+            args = [get(i, wl), TYPES[case['cls']]]
         else:
             args = [get(i, wl), get(j, wr)]
         out.append(run_assert(name, args, case.get('kwargs')))
@@ -146,7 +150,7 @@ def main():
         norm_ids = {}
 
         def strings_of(v):
-            if isinstance(v, str):
+            if isinstance(v, (str, bytes)):
                 yield v
             elif isinstance(v, dict):
                 for k, x in v.items():
@@ -157,7 +161,10 @@ def main():
                     yield from strings_of(x)
         for v in VALUES:
             for t in strings_of(v):
-                norm_ids[t] = repr(_normalize_string(t))
+                try:
+                    norm_ids[t if isinstance(t, str) else 'bytes:' + t.decode('latin-1')] = repr(_normalize_string(t))
+                except Exception as e:
+                    norm_ids[t if isinstance(t, str) else 'bytes:' + t.decode('latin-1')] = 'raise:' + type(e).__name__
     else:
         norm_ids = {}
     json.dump({'results': out, 'unit_tests': uts, 'n_values': len(VALUES), 'outputs': outs, 'equality': eqs, 'normal_forms': norm_ids,
